@@ -1771,8 +1771,12 @@ func (ev *Evaluator) doCall(st *State, fr *Frame, c *ssa.CallCommon, instr ssa.I
 		} else if ev.Cfg.Inline != nil {
 			inline = ev.Cfg.Inline(callee, depth)
 		}
-		if !inline && !ev.Cfg.NoSamePkgInline && !c.IsInvoke() && e.FnTerm == nil && callee.Parent() == nil && callee.Pkg != nil && callee.Pkg == ev.rootPkg && ev.P.InScope[callee] &&
+		if !inline && !ev.Cfg.NoSamePkgInline && !c.IsInvoke() && e.FnTerm == nil && (callee.Parent() == nil || len(callee.FreeVars) == 0) && callee.Pkg != nil && callee.Pkg == ev.rootPkg && ev.P.InScope[callee] &&
 			!ev.isProtocol(callee) && !ev.Cfg.Opaque[canonName(callee)] {
+			inline = true
+		}
+		// a method expression's thunk is the method call it wraps
+		if !inline && e.FnTerm == nil && strings.HasSuffix(callee.Name(), "$thunk") && callee.Synthetic != "" && len(callee.Blocks) == 1 {
 			inline = true
 		}
 		// no recursion
